@@ -108,7 +108,7 @@ pub fn gen_cfg(rng: &mut Rng, tier: Tier, kt0: bool) -> OptCfg {
         _ => (steps / loops_target).max(1),
     };
     // (a zero temperature is drawn with either sign: -0.0 == 0)
-    let kt_start = if kt0 { *rng.pick(&[0.0, 0.0, 0.0, 0.0, -0.0]) } else { *rng.pick(&[0.0, -0.0, 1e-3, 0.1, 0.1, 1.0, 5.0]) };
+    let kt_start = if kt0 { *rng.pick(&[0.0, 0.0, 0.0, 0.0, -0.0]) } else { *rng.pick(&[0.0, -0.0, 1e-3, 0.1, 0.1, 1.0, 5.0, 5.0, 1e-300, 1e308]) };
     let (kt_finish, kt_ratio) = match rng.below(6) {
         0 => (None, None),
         1 => (Some(0.0), None),
@@ -504,7 +504,7 @@ impl Check for C19 {
         "C19"
     }
     fn rule(&self) -> String {
-        "run i: landscape chosen to pin the per-loop rejection rate (plateau = 0 %, point cliff = 100 %, staircase/peak/rugged in between), 1..100 inner loops, ranges 1e-6..1e6, max_step_size 0..1, starts on/off bounds; all from splitmix(VERIF_SEED,'C19',i). Every proposal is compared with every surviving hypothesis of the state it derives from. Non-trivial: accepted and rejected moves both present, or a clamp/invalid proposal fired. Distinct: distinct history hashes.".into()
+        "run i: landscape chosen to pin the per-loop rejection rate (plateau = 0 %, point cliff = 100 %, staircase/peak/rugged in between), 1..100 inner loops, ranges 1e-6..1e6, max_step_size 0..1, starts on/off bounds; 8 % collapse-and-recovery scripts (60..1100 consecutive rejections - enough to shrink the adaptive step below 1e-4 at inner_steps 2..10 - followed by a phase of acceptances, twice); all from splitmix(VERIF_SEED,'C19',i). Every proposal is compared with every surviving hypothesis of the state it derives from. Non-trivial: accepted and rejected moves both present, or a clamp/invalid proposal fired. Distinct: distinct history hashes.".into()
     }
     fn runs(&self, tier: Tier) -> u64 {
         match tier {
@@ -539,6 +539,21 @@ impl Check for C19 {
             cfg.max_step = 0.01;
         }
         cap_for_n(&ps, &mut cfg);
+        if rng.chance(0.08) {
+            // collapse and recovery: a rejection streak long enough to shrink the adaptive step by
+            // orders of magnitude, then a phase in which (nearly) everything is accepted, repeated
+            let ps = gen_params(rng, &[(2, 3), (3, 3), (6, 2)]);
+            let (inner, streak) = *rng.pick(&[(2u64, 60.0), (2, 120.0), (3, 120.0), (4, 250.0), (4, 400.0), (10, 1100.0)]);
+            let recover = *rng.pick(&[4.0, 10.0, 50.0]);
+            let ls = LandSpec { kind: "script".into(), salt: rng.next_u64() >> 12, quantum: *rng.pick(&[1.0, 0.9, 0.5]), amp: 1.0, ladder: vec![streak, recover], cliff: None, holes: 0.0, nan_holes: false, abyss: None };
+            cfg.inner = inner;
+            cfg.steps = (2.0 * (streak + recover)) as u64 + 3 * inner;
+            cfg.convergence = None;
+            if cfg.max_step == 0.0 {
+                cfg.max_step = 0.1;
+            }
+            return scen(&ps, &ls, &cfg).set("family", J::str("collapse-and-recovery"));
+        }
         let pre = gen_prelude(rng);
         with_prelude(scen(&ps, &ls, &cfg), pre)
     }
@@ -549,6 +564,7 @@ impl Check for C19 {
         let tr = run.trace();
         let mut out = base_out(&run, &tr);
         out.count("fault.F-history(an earlier optimisation ran on the same thread)", had_prelude as u64);
+        out.count("probe.collapse_and_recovery_runs", (ls.kind == "script" && ls.ladder.len() == 2) as u64);
         c19_verdict(&run, &tr, &cfg, &mut out);
         Ok(out)
     }
